@@ -87,7 +87,7 @@ PROPS = {
         "chain": [chain("ent", 24, 25, 300, 40), chain("quorum", 32, 30, 400, 40), chain("gov", 8, 25, 150, 40), chain("all", 16, 25, 200, 40)],
         "corpus": ["witness", "regress", "known"],
         "relevant": rel_kinds(ENT_TAGS, is_ent),
-        "level_text": "Proof: c03_raise_requires_whitelisted, c03_decision_requires_current_signer, c03_one_decision_per_signer (distinct signer addresses in every state of every run), c03_tally_rule (the code's 64-bit tally equals the three-clause rule of the statement) and c03_tally_applies_rule_to_every_raised_order, c03_status_transitions_and_terminal_frozen (raised->accepted->completed | raised->rejected along every run; rejected/completed orders identical for ever), c03_completed_in_the_following_block (depends on the regenerated BeginBlocker order), c03_completion_credits_exactly_the_amount, c03_queues_match_status.",
+        "level_text": "Proof: c03_accept_needs_min_accepts_distinct_addresses (an order is accepted only on the accepts of >= MinAccepts pairwise distinct addresses, however the signer parameter lists them), c03_raise_requires_whitelisted, c03_decision_requires_current_signer, c03_one_decision_per_signer (distinct signer addresses in every state of every run), c03_tally_rule (the code's 64-bit tally equals the three-clause rule of the statement) and c03_tally_applies_rule_to_every_raised_order, c03_status_transitions_and_terminal_frozen (raised->accepted->completed | raised->rejected along every run; rejected/completed orders identical for ever), c03_completed_in_the_following_block (depends on the regenerated BeginBlocker order), c03_completion_credits_exactly_the_amount, c03_queues_match_status.",
         "level_note": ENT_NOTE + " The duplicate-decision defect (upper-case spelling) was repaired by a fix: commit; its witness stays in the corpus.",
         "assumptions": ["EntQ: the 64-bit purchase-order id counter has not reached 2^64-1", "MinAccepts < 2^63 for the plain-arithmetic reading of the tally (Params.Validate bounds it by the number of signers)"],
     },
